@@ -1,52 +1,52 @@
 import Pcore.Proofs.LatTransDMain
 import Pcore.Proofs.LatGen
+import Pcore.Proofs.LatReflAll
 set_option linter.unusedSimpArgs false
 set_option linter.unusedVariables false
 /-! C04, corollary of C03 stage 4: the generalisation of a VARIANT accepts it.  `Generic()` of a Variant generalises the members and
     removes those that became `Equals` to an earlier one (`UniqueTypes`); the kept member `s` accepts the removed one's generalisation
-    `g` (equal types accept each other, `eq_asg`), `g` accepts the original member `t` (induction), hence `s ⊒ t` by TRANSITIVITY — on the
+    `g` (equal types accept each other, `eq_asg_all`), `g` accepts the original member `t` (induction), hence `s ⊒ t` by TRANSITIVITY — on the
     stage-4 fragment `Ty.TA`, which generalisation preserves together with well-formedness (`gg_gen`). -/
 namespace Pcore.Lat
 variable (cfg : Cfg) (sfh : Bool)
 
-/-- what the proof carries about a type and its generalisations: well-formed, no alias below a decomposition, in the fragment of
-    transitivity -/
-def GenGood (t : Ty) : Prop := Ty.WF cfg t ∧ t.NoAlias ∧ t.TA sfh
+/-- what the proof carries about a type and its generalisations: well-formed and in the fragment of transitivity -/
+def GenGood (t : Ty) : Prop := Ty.WF cfg t ∧ t.TA sfh
 
 theorem gg_array (e : Ty) (r : Rng) : GenGood cfg sfh (.array e r) ↔ GenGood cfg sfh e := by
-  unfold GenGood; conv => lhs; unfold Ty.WF Ty.NoAlias Ty.TA
+  unfold GenGood; conv => lhs; unfold Ty.WF Ty.TA
 theorem gg_hash (k v : Ty) (r : Rng) : GenGood cfg sfh (.hash k v r) ↔ GenGood cfg sfh k ∧ GenGood cfg sfh v := by
-  unfold GenGood; conv => lhs; unfold Ty.WF Ty.NoAlias Ty.TA
+  unfold GenGood; conv => lhs; unfold Ty.WF Ty.TA
   constructor
-  · rintro ⟨⟨a, b⟩, ⟨c, d⟩, ⟨e, f⟩⟩; exact ⟨⟨a, c, e⟩, ⟨b, d, f⟩⟩
-  · rintro ⟨⟨a, c, e⟩, ⟨b, d, f⟩⟩; exact ⟨⟨a, b⟩, ⟨c, d⟩, ⟨e, f⟩⟩
+  · rintro ⟨⟨a, b⟩, ⟨e, f⟩⟩; exact ⟨⟨a, e⟩, ⟨b, f⟩⟩
+  · rintro ⟨⟨a, e⟩, ⟨b, f⟩⟩; exact ⟨⟨a, b⟩, ⟨e, f⟩⟩
 theorem gg_optional (t : Ty) : GenGood cfg sfh (.optional t) ↔ GenGood cfg sfh t := by
-  unfold GenGood; conv => lhs; unfold Ty.WF Ty.NoAlias Ty.TA
+  unfold GenGood; conv => lhs; unfold Ty.WF Ty.TA
 theorem gg_notUndef (t : Ty) : GenGood cfg sfh (.notUndef t) ↔ GenGood cfg sfh t := by
-  unfold GenGood; conv => lhs; unfold Ty.WF Ty.NoAlias Ty.TA
+  unfold GenGood; conv => lhs; unfold Ty.WF Ty.TA
 theorem gg_sensitive (t : Ty) : GenGood cfg sfh (.sensitive t) ↔ GenGood cfg sfh t := by
-  unfold GenGood; conv => lhs; unfold Ty.WF Ty.NoAlias Ty.TA
+  unfold GenGood; conv => lhs; unfold Ty.WF Ty.TA
 theorem gg_typ (t : Ty) : GenGood cfg sfh (.typ t) ↔ GenGood cfg sfh t := by
-  unfold GenGood; conv => lhs; unfold Ty.WF Ty.NoAlias Ty.TA
+  unfold GenGood; conv => lhs; unfold Ty.WF Ty.TA
 theorem gg_iterable (t : Ty) : GenGood cfg sfh (.iterable t) ↔ GenGood cfg sfh t := by
-  unfold GenGood; conv => lhs; unfold Ty.WF Ty.NoAlias Ty.TA
+  unfold GenGood; conv => lhs; unfold Ty.WF Ty.TA
 theorem gg_variant (ts : List Ty) : GenGood cfg sfh (.variant ts) ↔ ∀ t ∈ ts, GenGood cfg sfh t := by
-  unfold GenGood; conv => lhs; unfold Ty.WF Ty.NoAlias Ty.TA
+  unfold GenGood; conv => lhs; unfold Ty.WF Ty.TA
   constructor
-  · rintro ⟨a, b, c⟩ t ht; exact ⟨a t ht, b t ht, c t ht⟩
-  · intro h; exact ⟨fun t ht => (h t ht).1, fun t ht => (h t ht).2.1, fun t ht => (h t ht).2.2⟩
+  · rintro ⟨a, c⟩ t ht; exact ⟨a t ht, c t ht⟩
+  · intro h; exact ⟨fun t ht => (h t ht).1, fun t ht => (h t ht).2⟩
 theorem gg_tuple (ts : List Ty) (g : Option Rng) :
     GenGood cfg sfh (.tuple ts g) ↔ ((ts.length : Int) ≤ I64.max) ∧ ∀ t ∈ ts, GenGood cfg sfh t := by
-  unfold GenGood; conv => lhs; unfold Ty.WF Ty.NoAlias Ty.TA
+  unfold GenGood; conv => lhs; unfold Ty.WF Ty.TA
   constructor
-  · rintro ⟨a, b, l, c⟩; exact ⟨l, fun t ht => ⟨a t ht, b t ht, c t ht⟩⟩
-  · rintro ⟨l, h⟩; exact ⟨fun t ht => (h t ht).1, fun t ht => (h t ht).2.1, l, fun t ht => (h t ht).2.2⟩
+  · rintro ⟨a, l, c⟩; exact ⟨l, fun t ht => ⟨a t ht, c t ht⟩⟩
+  · rintro ⟨l, h⟩; exact ⟨fun t ht => (h t ht).1, l, fun t ht => (h t ht).2⟩
 theorem gg_struct (ms : List Member) :
     GenGood cfg sfh (.struct ms) ↔ sfh = false ∧ (ms.map (·.1)).Nodup ∧ ∀ m ∈ ms, GenGood cfg sfh m.2.2 := by
-  unfold GenGood; conv => lhs; unfold Ty.WF Ty.NoAlias Ty.TA
+  unfold GenGood; conv => lhs; unfold Ty.WF Ty.TA
   constructor
-  · rintro ⟨⟨n, a⟩, b, s, c⟩; exact ⟨s, n, fun m hm => ⟨a m hm, b m hm, c m hm⟩⟩
-  · rintro ⟨s, n, h⟩; exact ⟨⟨n, fun m hm => (h m hm).1⟩, fun m hm => (h m hm).2.1, s, fun m hm => (h m hm).2.2⟩
+  · rintro ⟨⟨n, a⟩, s, c⟩; exact ⟨s, n, fun m hm => ⟨a m hm, c m hm⟩⟩
+  · rintro ⟨s, n, h⟩; exact ⟨⟨n, fun m hm => (h m hm).1⟩, s, fun m hm => (h m hm).2⟩
 
 theorem generalizeL_mem (ts : List Ty) (g : Ty) (h : g ∈ generalizeL ts) : ∃ t ∈ ts, g = generalize t := by
   induction ts with
@@ -149,10 +149,10 @@ theorem gg_mkVariant (us : List Ty) (h : ∀ u ∈ us, GenGood cfg sfh u) : GenG
     | cons u' rest' => simp only [mkVariant]; rw [gg_variant]; exact h
 
 theorem gg_leaf (t : Ty) (h : match t with
-    | .any | .undef | .dflt | .scalar | .scalarData | .numeric | .str | .bin | .int _ | .float _ _ | .bool _ | .tspan _ | .strSz _
-    | .strVal _ | .pattern _ | .regexp _ | .coll _ | .object _ => True
+    | .any | .undef | .dflt | .scalar | .scalarData | .numeric | .data | .richData | .str | .bin | .int _ | .float _ _ | .bool _
+    | .tspan _ | .strSz _ | .strVal _ | .pattern _ | .regexp _ | .coll _ | .object _ => True
     | _ => False) : GenGood cfg sfh t := by
-  cases t <;> simp only [] at h <;> (first | contradiction | simp [GenGood, Ty.WF, Ty.NoAlias, Ty.TA])
+  cases t <;> simp only [] at h <;> (first | contradiction | simp [GenGood, Ty.WF, Ty.TA])
 
 /-- generalisation preserves well-formedness, the absence of aliases and the fragment of transitivity -/
 theorem gg_gen : ∀ (n : Nat) (t : Ty), t.w ≤ n → GenGood cfg sfh t → GenGood cfg sfh (generalize t) ∧ GenGood cfg sfh (genericType t) := by
@@ -162,7 +162,7 @@ theorem gg_gen : ∀ (n : Nat) (t : Ty), t.w ≤ n → GenGood cfg sfh t → Gen
   | succ n ih =>
     intro t hw gt
     have hfl : GenGood cfg sfh floatAll := by unfold floatAll; exact gg_leaf cfg sfh _ trivial
-    have henum : GenGood cfg sfh (.enum [] false) := by simp [GenGood, Ty.WF, Ty.NoAlias, Ty.TA]
+    have henum : GenGood cfg sfh (.enum [] false) := by simp [GenGood, Ty.WF, Ty.TA]
     cases t with
     | unit => simp only [generalize, genericType]; exact ⟨gt, gt⟩
     | data => simp only [generalize, genericType]; exact ⟨gt, gt⟩
@@ -275,8 +275,8 @@ theorem gen_asg_var (hl : ∀ s, (cfg.lower s).length = s.length) : ∀ (n : Nat
   | zero => intro t h; have := Ty.w_pos t; omega
   | succ n ih =>
     intro t hw gd gt
-    have wt := gd.1; have nt := gd.2.1; have ft := gd.2.2
-    have self : asg cfg sfh t t = true := asg_refl cfg sfh t.w t (Nat.le_refl _) wt nt
+    have wt := gd.1; have ft := gd.2
+    have self : asg cfg sfh t t = true := asg_refl_all cfg sfh t.w t (Nat.le_refl _) wt
     cases t with
     | variant ts =>
       rw [gg_variant] at gd; unfold Ty.GenOKV at gt; simp only [Ty.w] at hw
@@ -292,12 +292,12 @@ theorem gen_asg_var (hl : ∀ s, (cfg.lower s).length = s.length) : ∀ (n : Nat
         · exact mkVariant_accepts cfg sfh _ _ hk x hgx
         · obtain ⟨x', hx', rfl⟩ := generalizeL_mem ts s (uniqueTy_sub _ s hs)
           have ggs := (gg_gen cfg sfh x'.w x' (Nat.le_refl _) (gd x' hx')).1
-          have hsg := (eq_asg cfg sfh _ _ _ (Nat.le_refl _) ggs.1 ggx.1 ggs.2.1 ggx.2.1 hse).1
-          have := transD cfg sfh hl _ _ x ggs.2.2 ggx.2.2 (gd x hx).2.2 ggs.1 ggx.1 (gd x hx).1 hsg hgx
+          have hsg := (eq_asg_all cfg sfh _ _ _ (Nat.le_refl _) ggs.1 ggx.1 hse).1
+          have := transD cfg sfh hl _ _ x ggs.2 ggx.2 (gd x hx).2 ggs.1 ggx.1 (gd x hx).1 hsg hgx
           exact mkVariant_accepts cfg sfh _ _ hs x this
       simp only [generalize, genericType]; exact ⟨key, key⟩
-    | data => unfold Ty.NoAlias at nt; exact absurd nt id
-    | richData => unfold Ty.NoAlias at nt; exact absurd nt id
+    | data => simp only [generalize, genericType]; exact ⟨self, self⟩
+    | richData => simp only [generalize, genericType]; exact ⟨self, self⟩
     | any => simp only [generalize, genericType]; exact ⟨self, self⟩
     | unit => simp only [generalize, genericType]; exact ⟨self, self⟩
     | undef => simp only [generalize, genericType]; exact ⟨self, self⟩
@@ -347,7 +347,7 @@ theorem gen_asg_var (hl : ∀ s, (cfg.lower s).length = s.length) : ∀ (n : Nat
       have : asg cfg sfh (.int Rng.all) (.int r) = true := viaR cfg sfh rfl (by unfold asgRecv; exact all_sub_i64 gt)
       simp only [generalize, genericType]; exact ⟨this, this⟩
     | array e r =>
-      unfold Ty.GenOKV at gt; unfold Ty.WF at wt; unfold Ty.NoAlias at nt; unfold Ty.TA at ft
+      unfold Ty.GenOKV at gt; unfold Ty.WF at wt; unfold Ty.TA at ft
       simp only [Ty.w] at hw
       have key : asg cfg sfh (if e.isAny then .array .any Rng.pos else .array (generalize e) Rng.pos) (.array e r) = true := by
         by_cases he : e.isAny = true
@@ -355,43 +355,43 @@ theorem gen_asg_var (hl : ∀ s, (cfg.lower s).length = s.length) : ∀ (n : Nat
           cases e <;> simp [Ty.isAny] at he
           exact viaR cfg sfh rfl (by unfold asgRecv; simp [pos_sub_size gt.1, asg_any_l])
         · simp only [he, Bool.false_eq_true, if_false]
-          exact viaR cfg sfh rfl (by unfold asgRecv; simp [pos_sub_size gt.1, (ih e (by omega) ⟨wt, nt, ft⟩ gt.2).1])
+          exact viaR cfg sfh rfl (by unfold asgRecv; simp [pos_sub_size gt.1, (ih e (by omega) ⟨wt, ft⟩ gt.2).1])
       simp only [generalize, genericType]; exact ⟨key, key⟩
     | hash k v r =>
-      unfold Ty.GenOKV at gt; unfold Ty.WF at wt; unfold Ty.NoAlias at nt; unfold Ty.TA at ft
+      unfold Ty.GenOKV at gt; unfold Ty.WF at wt; unfold Ty.TA at ft
       simp only [Ty.w] at hw
       have key : asg cfg sfh (.hash (genericType k) (genericType v) Rng.pos) (.hash k v r) = true :=
         viaR cfg sfh rfl (by
           unfold asgRecv
-          simp [pos_sub_size gt.1, (ih k (by omega) ⟨wt.1, nt.1, ft.1⟩ gt.2.1).2, (ih v (by omega) ⟨wt.2, nt.2, ft.2⟩ gt.2.2).2])
+          simp [pos_sub_size gt.1, (ih k (by omega) ⟨wt.1, ft.1⟩ gt.2.1).2, (ih v (by omega) ⟨wt.2, ft.2⟩ gt.2.2).2])
       simp only [generalize, genericType]; exact ⟨key, key⟩
     | iterable x =>
-      unfold Ty.GenOKV at gt; unfold Ty.WF at wt; unfold Ty.NoAlias at nt; unfold Ty.TA at ft
+      unfold Ty.GenOKV at gt; unfold Ty.WF at wt; unfold Ty.TA at ft
       simp only [Ty.w] at hw
-      have key := mono_iterable cfg sfh _ _ (ih x (by omega) ⟨wt, nt, ft⟩ gt).2
+      have key := mono_iterable cfg sfh _ _ (ih x (by omega) ⟨wt, ft⟩ gt).2
       simp only [generalize, genericType]; exact ⟨key, key⟩
     | sensitive x =>
-      unfold Ty.GenOKV at gt; unfold Ty.WF at wt; unfold Ty.NoAlias at nt; unfold Ty.TA at ft
+      unfold Ty.GenOKV at gt; unfold Ty.WF at wt; unfold Ty.TA at ft
       simp only [Ty.w] at hw
-      have key := mono_sensitive cfg sfh _ _ (ih x (by omega) ⟨wt, nt, ft⟩ gt).2
+      have key := mono_sensitive cfg sfh _ _ (ih x (by omega) ⟨wt, ft⟩ gt).2
       simp only [generalize, genericType]; exact ⟨key, key⟩
     | typ x =>
-      unfold Ty.GenOKV at gt; unfold Ty.WF at wt; unfold Ty.NoAlias at nt; unfold Ty.TA at ft
+      unfold Ty.GenOKV at gt; unfold Ty.WF at wt; unfold Ty.TA at ft
       simp only [Ty.w] at hw
-      have key := mono_typ cfg sfh _ _ (ih x (by omega) ⟨wt, nt, ft⟩ gt).2
+      have key := mono_typ cfg sfh _ _ (ih x (by omega) ⟨wt, ft⟩ gt).2
       simp only [generalize, genericType]; exact ⟨key, key⟩
     | notUndef x =>
-      unfold Ty.GenOKV at gt; unfold Ty.WF at wt; unfold Ty.NoAlias at nt; unfold Ty.TA at ft
+      unfold Ty.GenOKV at gt; unfold Ty.WF at wt; unfold Ty.TA at ft
       simp only [Ty.w] at hw
-      have key := mono_notUndef cfg sfh _ _ (ih x (by omega) ⟨wt, nt, ft⟩ gt).2
+      have key := mono_notUndef cfg sfh _ _ (ih x (by omega) ⟨wt, ft⟩ gt).2
       simp only [generalize, genericType]; exact ⟨key, key⟩
     | optional x =>
-      unfold Ty.GenOKV at gt; unfold Ty.WF at wt; unfold Ty.NoAlias at nt; unfold Ty.TA at ft
+      unfold Ty.GenOKV at gt; unfold Ty.WF at wt; unfold Ty.TA at ft
       simp only [Ty.w] at hw
-      have key := mono_optional cfg sfh _ _ (Ty.NoAlias.noAliasR x.w x (Nat.le_refl _) nt) (ih x (by omega) ⟨wt, nt, ft⟩ gt).2
+      have key := mono_optional_all cfg sfh _ _ (ih x (by omega) ⟨wt, ft⟩ gt).2
       simp only [generalize, genericType]; exact ⟨key, key⟩
     | tuple ts g =>
-      unfold Ty.GenOKV at gt; unfold Ty.WF at wt; unfold Ty.NoAlias at nt; unfold Ty.TA at ft
+      unfold Ty.GenOKV at gt; unfold Ty.WF at wt; unfold Ty.TA at ft
       simp only [Ty.w] at hw
       have key : asg cfg sfh (.tuple (generalizeL ts) g) (.tuple ts g) = true := by
         apply tuple_pointwise cfg sfh _ _ g (generalizeL_length ts)
@@ -400,10 +400,10 @@ theorem gen_asg_var (hl : ∀ s, (cfg.lower s).length = s.length) : ∀ (n : Nat
         rw [hy] at ht; cases ht
         have hm := List.mem_of_getElem? hy
         rw [hg]
-        exact (ih y (by have := Ty.w_lt_wl hm; omega) ⟨wt y hm, nt y hm, ft.2 y hm⟩ (gt y hm)).1
+        exact (ih y (by have := Ty.w_lt_wl hm; omega) ⟨wt y hm, ft.2 y hm⟩ (gt y hm)).1
       simp only [generalize, genericType]; exact ⟨key, key⟩
     | struct ms =>
-      unfold Ty.GenOKV at gt; unfold Ty.WF at wt; unfold Ty.NoAlias at nt; unfold Ty.TA at ft
+      unfold Ty.GenOKV at gt; unfold Ty.WF at wt; unfold Ty.TA at ft
       simp only [Ty.w] at hw
       have key : asg cfg sfh (.struct (genericM ms)) (.struct ms) = true := by
         apply viaR cfg sfh rfl
@@ -413,7 +413,7 @@ theorem gen_asg_var (hl : ∀ s, (cfg.lower s).length = s.length) : ∀ (n : Nat
         obtain ⟨m, hm, h1, h2, h3⟩ := genericM_mem ms m' hm'
         refine ⟨m, hm, h1.symm, h2.symm, ?_⟩
         rw [h3]
-        exact (ih m.2.2 (by have := Ty.w_lt_wm hm; omega) ⟨wt.2 m hm, nt m hm, ft.2 m hm⟩ (gt m hm)).2
+        exact (ih m.2.2 (by have := Ty.w_lt_wm hm; omega) ⟨wt.2 m hm, ft.2 m hm⟩ (gt m hm)).2
       simp only [generalize, genericType]; exact ⟨key, key⟩
 
 
